@@ -93,7 +93,7 @@ func probe(g *gwbox.Gateway, host, path string, cap int) (admitted int, err stri
 func TestPropSlotsReturnedOnEveryExitPath(t *testing.T) {
 	sub := stats.NewSub("http-exit-paths", "rapid: a max-in-flight(M in 1..3) schema on the 'pods' policy of a cluster behind the real chain + dispatcher; 1-8 requests run to completion, each ending in a generated way (200; upstream 5xx; upstream resets the connection mid-body; no ready endpoint = 503 after the slot was taken; client aborts while the upstream holds the response; client aborts mid-stream; panic injected into the response writer), up to M of them concurrently; oracle: afterwards exactly M requests are admitted concurrently (held open at the stub) and the next one is answered 429; the 'other' schema of the cluster and a second cluster still admit their own limit; non-trivial = at least one abnormal ending; distinct by FNV-64 of the plan")
 	endings := []string{"ok", "upstream-5xx", "upstream-reset", "no-ready-endpoint", "client-abort-waiting", "client-abort-streaming", "writer-panic"}
-	stats.Check(t, stats.N(40, 600), func(t *rapid.T) {
+	stats.Check(t, stats.N(80, 600), func(t *rapid.T) {
 		m := int32(rapid.IntRange(1, 3).Draw(t, "M"))
 		n := rapid.IntRange(1, 8).Draw(t, "requests")
 		plan := make([]string, n)
